@@ -113,6 +113,7 @@ pub fn check_case(c: &Case, rep: &mut Report) {
     };
     probe.take_accepted(); // drop the connection request the x224 level wrote
     let mut viol: Vec<(String, String)> = Vec::new();
+    let lens_desc = if c.lens.len() <= 12 { format!("{:?}", c.lens) } else { format!("[{} messages, the first {:?}]", c.lens.len(), &c.lens[..6]) };
     for (i, n) in c.lens.iter().enumerate() {
         // a message is either a plain byte block or, in the structured class, a record of the library's message model
         // (sized, optional and skipped fields): its frame must carry the bytes the reference encoder gives for it
@@ -146,7 +147,7 @@ pub fn check_case(c: &Case, rep: &mut Report) {
         });
         let got = probe.accepted();
         let fired = probe.fault_fired();
-        let what = format!("message {} of {:?} (payload {} bytes)", i, c.lens, n);
+        let what = format!("message {} of {} (payload {} bytes)", i, lens_desc, n);
         match res {
             Err(pn) => {
                 rep.hist("panic");
@@ -348,7 +349,8 @@ pub fn make_case(class: u64, idx: u64, seed: u64, quick: bool) -> Case {
         _ => {
             // several messages of varying size on ONE client (stale state between messages), optional late fault
             let level = LEVELS[(idx % 3) as usize];
-            let n = r.range(2, 6) as usize;
+            // now and then more messages on one client than a 16-bit counter holds (quick: once in 20 000 cases)
+            let n = if idx % 20_000 == 19_999 { 65_536 + r.range(1, 300) as usize } else { r.range(2, 6) as usize };
             let lens: Vec<usize> = (0..n)
                 .map(|_| match r.below(5) {
                     0 => 0,
